@@ -160,12 +160,14 @@ def device_component_part(ck, tier, rng):
                           dict(kind="device_component", history=hs[i], observed=runs[i][0], notifications=runs[i][1], codes=bad[i]))
 
 
-def main_T(pid, tier, seed, prop_codes, prop_mod, serving_files, what, with_dc=False):
+def main_T(pid, tier, seed, prop_codes, prop_mod, serving_files, what, with_dc=False, extra=None):
     ck = Check(pid, tier, seed, prop_mod, serving_files)
     ck.build_and_audit()
     rng = random.Random(seed)
     if with_dc:
         device_component_part(ck, tier, rng)
+    if extra is not None:
+        extra(ck, tier, rng)
     groups, stats = gen_groups(tier, rng, pid)
     terms = [render_group(g) for g in groups]
     bad = run_shards(pid, HEADER, "multi_case", "check_multi", terms, shard_size=120)
